@@ -6,6 +6,68 @@ import pipeline as P
 LEVEL = 'proof'
 
 
+def canonical_columns_hold(ibits, shape, nsub):
+    """The property's own predicate on the IMPLEMENTATION's compressed data bits, given only the shape of the
+    columns (element widths, from SpecC.layout_cols): every numeric column is base, 6-bit width, increments with
+      - width 0 and no increments, or
+      - some present increment (not all ones), the smallest present increment 0 (the base is the minimum), the
+        width the least k with max + 2 < 2^k, and not all subsets equal (width 0 is used exactly then);
+    character columns: width 0, or width = the field length in octets and a NUL base; 203YYY: width 0.
+    Returns (ok, detail, nbits_consumed)."""
+    pos = 0
+
+    def take(n):
+        nonlocal pos
+        if pos + n > len(ibits):
+            raise IndexError
+        b = ibits[pos:pos + n]
+        pos += n
+        return int(b, 2) if n else 0
+
+    try:
+        for k, tok in enumerate(shape):
+            kind = tok[0]
+            if kind == 'r':
+                w = int(tok[1:])
+                take(w)
+                if take(6) != 0:
+                    return False, 'column %d (%s): reference value with increments' % (k, tok), pos
+                continue
+            w, wd = [int(x) for x in tok[1:].split('.')]
+            if kind == 's':
+                base = take(8 * w)
+                nd = take(6)
+                if nd != wd:
+                    return False, 'column %d (%s): width field %d' % (k, tok, nd), pos
+                if nd:
+                    if nd != w or base != 0:
+                        return False, 'column %d (%s): character increments of %d octets, base %x' % (k, tok, nd, base), pos
+                    incs = [take(8 * nd) for _ in range(nsub)]
+                    if len(set(incs)) == 1:
+                        return False, 'column %d (%s): equal strings written with increments' % (k, tok), pos
+                continue
+            base = take(w)
+            nd = take(6)
+            if nd != wd:
+                return False, 'column %d (%s): width field %d' % (k, tok, nd), pos
+            if nd == 0:
+                continue
+            incs = [take(nd) for _ in range(nsub)]
+            ones = 2 ** nd - 1
+            present = [d for d in incs if d != ones]
+            if not present:
+                return False, 'column %d (%s): all increments missing but width %d' % (k, tok, nd), pos
+            if min(present) != 0:
+                return False, 'column %d (%s): base is not the minimum (least increment %d)' % (k, tok, min(present)), pos
+            if (max(present) + 2).bit_length() != nd:
+                return False, 'column %d (%s): width %d for spread %d' % (k, tok, nd, max(present)), pos
+            if len(present) == nsub and len(set(present)) == 1:
+                return False, 'column %d (%s): all subsets equal but width %d (stored-equal finding)' % (k, tok, nd), pos
+    except IndexError:
+        return False, 'data section too short for the columns', pos
+    return True, '', pos
+
+
 def run(ctx):
     ctx.rule = ('same template/value space as C01 (values in the representable range of each field or missing; per-subset '
                 'varying replication factors and bitmaps); each (template, values) pair is encoded by Encoder().process and by '
@@ -45,6 +107,10 @@ def run(ctx):
                 c['vary_strings'] = True
     P.run_encode(cases)
     P.run_decode(cases)
+    # compressed data: the canonical column layout (SpecC.canonical_bits_c) next to the encoder model
+    comp = [c for c in cases if c.get('py_vals') is not None and c['compressed']]
+    for c, o in zip(comp, lib.run_model_sharded(['canonc %s %s' % (B.subsets_to_model(c['py_vals']), c['toks']) for c in comp])):
+        c['model_canonc'] = o
     for c in cases:
         if not c.get('toks') or not c.get('gen', '').startswith('ok'):
             ctx.dist['generator-rejected'] += 1
@@ -67,9 +133,35 @@ def run(ctx):
                               'section 3 does not hold the descriptor list F/X/Y packed: %s vs %s' % (d3.hex()[:60], want.hex()[:60]))
         if c['impl_enc'][0] != 'ok':
             ctx.dist['encoder-refused-%d' % c['impl_enc'][1]] += 1
+        canon_ok, canon_why = True, ''
+        if c['compressed'] and c['impl_enc'][0] == 'ok':
+            # C02_encode_canonical_compressed on the extracted code: the layout accepts and gives the same bits as the
+            # encoder model; and the implementation's bits satisfy the canonical-column predicate
+            mc = c.get('model_canonc', 'err -1')
+            if eq:
+                ceq, cdetail = P.compare_encode(dict(c, model_enc=mc))
+                ctx.dist['compressed-layout-compared'] += 1
+                if not ceq:
+                    ctx.violation({'kind': 'C02-compressed-layout-mismatch', 'case': case, 'detail': cdetail, 'canonc': mc[:60],
+                                   'no_failing_input': True, 'broken': 'SpecC.canonical_bits_c / EncodeC.encode_compressed (extraction)'},
+                                  'ids=%s canonical column layout differs from the encoder: %s' % (c['ids'], cdetail))
+            if mc.startswith('ok '):
+                shape = mc.split(' ')[2]
+                shape = [] if shape == '-' else shape.split(',')
+                canon_ok, canon_why, used = canonical_columns_hold(P.hex_to_bits(c['impl_enc'][1], c['impl_enc'][2]), shape, c['nsub'])
+                for tok in shape:
+                    ctx.dist['column-' + ('numeric-width0' if tok[0] == 'n' and tok.endswith('.0') else
+                                          'numeric-increments' if tok[0] == 'n' else
+                                          'string-width0' if tok[0] == 's' and tok.endswith('.0') else
+                                          'string-increments' if tok[0] == 's' else 'refval')] += 1
+                if canon_ok and used != int(mc.split(' ')[1].split(':')[1]):
+                    canon_ok, canon_why = False, 'columns end at bit %d, layout has %s bits' % (used, mc.split(' ')[1].split(':')[1])
+                if eq and not canon_ok:
+                    ctx.violation({'kind': 'C02-compressed-column-not-canonical', 'case': case, 'detail': canon_why},
+                                  'ids=%s %s' % (c['ids'], canon_why))
         if not eq:
-            rt = P.roundtrip_holds(c)
-            rec = {'kind': 'C02-encode-mismatch', 'case': case, 'detail': detail,
+            rt = P.roundtrip_holds(c) and canon_ok
+            rec = {'kind': 'C02-encode-mismatch', 'case': case, 'detail': detail + (' | ' + canon_why if canon_why else ''),
                    'property_predicate_holds_on_impl': rt}
             if rt:
                 rec['no_failing_input'] = True
@@ -86,7 +178,9 @@ def run(ctx):
         if nontriv:
             ctx.sample({'ids': c['ids'], 'nsub': c['nsub'], 'values_subset0': c['val_toks'][0][:10],
                         'model_bits': c.get('model_enc', '')[:80]}, limit=3)
-    ctx.partial = ['compressed layout: column theorems in ColumnProofs (C05); whole-message compressed layout pending',
+    ctx.partial = ['width0_iff_stored_equal_refuted: the all-equal test is made on the values given, before scaling; two '
+                   'different values with the same stored integer (273.15, 273.151 at scale 1) give a column of width 2 with '
+                   'zero increments instead of width 0 (outside this generator\'s value space; notes/specc.md)',
                    'encode_canonical (encoder bits = concat of Spec field bits) is by construction of Encode.v: the model IS the '
                    'field-by-field layout; decode_encode relates it to the decoder']
     ctx.assumptions = ['IEEE-754 steps of the encoder are modelled exactly in Float53.v (round-to-nearest-even multiply, round half even); '
